@@ -4,7 +4,8 @@
       field 0      [F<k>] (full canonical dump) or [H<k>] (Adler-32 of the dump), where the
                    first [k] steps (the construction of the initial grid) are not printed;
       field i>0    one edit: [ar,N] [dr,N] [cr] [rr,A,B] [ab,N,R] [db,N] [dm,N,...] [ac,A,B]
-                   [dc,A,B] [rn,K1,V1,K2,V2,...] [ro,N,...;A1,B1,A2,B2,...]  (names hex-encoded).
+                   [dc,A,B] [rn,K1,V1,K2,V2,...] [rf,K1,V1,...] (rename_blocks with fix_blocknames = True)
+                   [ro,N,...;A1,B1,A2,B2,...]  (names hex-encoded).
                    [mi,BR,LEVELS,N,...;N,...]  minc: B = matrix block naming (d default, z, k), R = rock naming (d default,
                    i identity, m per level), the selection (empty: all blocks), the names failing the volume test;
     Two-grid cases, modes [D<k>] (full dumps) / [E<k>] (Adler-32): a second grid lives on the same objects;
@@ -12,8 +13,9 @@
                    [em,o,NA,NB,F] main = main.embed(other, t2connection([main.block[NA], other.block[NB]])),
                    [em,f,NA,NB,F] the same with two NEW block objects that only carry those names; F = 1 iff the sub-grid fits.
                    Both grids are printed after every step, joined by [#].
-    Result: the observations after each printed step joined by [|]; a step that raises
-    prints [E:<exception>] and ends the case.  In the full-dump modes [F]/[D] an observation ends in [!] when the
+    Result: the observations after each printed step joined by [|]; a step that raises prints [E:<exception>]; if
+    the grid it was applied to was consistent ([inv_b]) the caller "catches the exception": [@] and the observation of
+    the grid as the refused edit left it ([GridEdit.after]) follow, and the case goes on from there; else the case ends.  In the full-dump modes [F]/[D] an observation ends in [!] when the
     (main) grid is NOT consistent: the verdict of [inv_b], which decides the invariant [Inv] (InvDec.v). *)
 From Coq Require Import Ascii String List Bool PArith NArith FMapPositive.
 From PTBase Require Import Exn PyStr PyNum PyVal Wire.
@@ -147,6 +149,7 @@ Definition parse_op (f : str) : option op :=
           else if str_eqb k (s2l "ac") then match a with [x; y] => Some (AddConn x y) | _ => None end
           else if str_eqb k (s2l "dc") then match a with [x; y] => Some (DelConn x y) | _ => None end
           else if str_eqb k (s2l "rn") then Some (Rename (pairs a))
+          else if str_eqb k (s2l "rf") then Some (RenameFix (pairs a))
           else None
       | [] => None
       end
@@ -196,17 +199,53 @@ Definition exec_cmd (g : grid) (o : view) (c : cmd) : res (grid * view) :=
       do g' <- step g1 (Embed o (next g) (Pos.succ (next g)) fits); Ok (g', o)
   end.
 
+(** the state to go on with when the command raises; [None]: the grid it was applied to was not consistent, the case ends
+    (it also ends after a refused delete_block: Python walks a SET of connection names, the model a list, so which
+    connections are gone when it stops half way is not determined by the model) *)
+Definition is_delete_block (e : op) : bool := match e with DelBlock _ => true | _ => false end.
+Definition after_cmd (g : grid) (o : view) (c : cmd) : option (grid * view) :=
+  match c with
+  | OnMain e => if inv_b g && negb (is_delete_block e) then Some (after g e, o) else None
+  | OnOther e =>
+      let go := with_view g o in
+      if inv_b go && negb (is_delete_block e) then let g' := after go e in Some (with_view g' (view_of g), view_of g') else None
+  | Sum _ => None
+  | Emb false na nb fits =>
+      if inv_b g && inv_b (with_view g o) then
+        match bget g na, aget str_eqb (v_bdict o) nb with
+        | Some i0, Some i1 => Some (after g (Embed o i0 i1 fits), o)
+        | _, _ => Some (g, o)                                 (* KeyError in the caller's expression *)
+        end
+      else None
+  | Emb true na nb fits =>
+      if inv_b g && inv_b (with_view g o) then
+        let g1 := new_block (new_block g na 1%positive) nb 1%positive in
+        Some (after g1 (Embed o (next g) (Pos.succ (next g)) fits), o)
+      else None
+  end.
+
+Definition obs_of (dual hash : bool) (g : grid) (o : view) : str :=
+  let d := if dual then observe g ++ s2l "#" ++ observe (with_view g o) else observe g in
+  if hash then show_adler d else if inv_b g then d else d ++ s2l "!".
+
 Fixpoint exec (dual hash : bool) (g : grid) (o : view) (cs : list cmd) (skip : nat) : list str :=
   match cs with
   | [] => []
   | c :: r =>
       match exec_cmd g o c with
-      | Raise e => [s2l "E:" ++ show_exn e]
+      | Raise e =>
+          match after_cmd g o c with
+          | None => [s2l "E:" ++ show_exn e]
+          | Some (g1, o1) =>
+              match skip with
+              | S k => exec dual hash g1 o1 r k
+              | O => (s2l "E:" ++ show_exn e ++ s2l "@" ++ obs_of dual hash g1 o1) :: exec dual hash g1 o1 r O
+              end
+          end
       | Ok (g1, o1) =>
           match skip with
           | S k => exec dual hash g1 o1 r k
-          | O => let d := if dual then observe g1 ++ s2l "#" ++ observe (with_view g1 o1) else observe g1 in
-                 (if hash then show_adler d else if inv_b g1 then d else d ++ s2l "!") :: exec dual hash g1 o1 r O
+          | O => obs_of dual hash g1 o1 :: exec dual hash g1 o1 r O
           end
       end
   end.
